@@ -308,10 +308,60 @@ func checkC17(c *Ctx) {
 				}
 			}
 		})
+		// precedence: the signer is treated as a validator's own account only when no orchestrator binding exists
+		okPrec := true
+		ana.Instrs(g, func(in ssa.Instruction) {
+			call, ok := in.(*ssa.Call)
+			if !ok {
+				return
+			}
+			d, _ := ana.Describe(&call.Call)
+			if d.Name != "Validator" || !d.Iface {
+				return
+			}
+			fromLookup := false
+			for _, a := range call.Call.Args {
+				for _, lk := range lookups {
+					if derivesFrom(p, a, lk) {
+						fromLookup = true
+					}
+				}
+			}
+			if fromLookup {
+				return
+			}
+			isNil := ana.AtomIsNil(func(v ssa.Value) bool {
+				for _, lk := range lookups {
+					if v == ssa.Value(lk) || derivesFrom(p, v, lk) {
+						return true
+					}
+				}
+				return false
+			})
+			if !ana.Guarded(call, isNil) {
+				okPrec = false
+			}
+		})
+		okOrder = okOrder && okPrec
 		r.Check(okOrder && len(lookups) > 0, "C17.attribution", fname(g), p.Pos(g.Pos()), "signer resolution maps an orchestrator to the validator that registered it before the staking lookup", "the signer resolver does not look the signer up in the orchestrator index (votes of an orchestrator would not be attributed to its validator)")
 	}
 	if n == 0 {
 		r.Undecided("C17.attribution", "resolver", "-", "no bonded-validator resolver found")
+	}
+
+	// ---- C17.scan-complete: the in-use scans visit every entry ------------------------------
+	for _, g := range sortedFuncs(c.ConsensusReach()) {
+		full := false
+		for _, op := range p.StoreOps(g) {
+			if op.IsIter() && len(op.Key.Parts) == 0 {
+				full = true
+			}
+		}
+		if !full {
+			continue
+		}
+		ok, why := loopOnlyExitsAtHeader(g)
+		r.Check(ok, "C17.guards", "scan-complete:"+fname(g), p.Pos(g.Pos()), "the in-use scan leaves its loop only when the iterator is exhausted", "an in-use scan can stop before visiting every entry: "+why)
 	}
 
 	// ---- C17.generator -----------------------------------------------------------------
@@ -349,4 +399,70 @@ func (c *Ctx) scansPrefix(call *ssa.Call, prefix string) bool {
 		}
 	}
 	return found
+}
+
+// loopOnlyExitsAtHeader: the iterator loop (header tests Valid()) is left only through the header.
+func loopOnlyExitsAtHeader(f *ssa.Function) (bool, string) {
+	for _, b := range f.Blocks {
+		if len(b.Instrs) == 0 {
+			continue
+		}
+		iff, ok := b.Instrs[len(b.Instrs)-1].(*ssa.If)
+		if !ok {
+			continue
+		}
+		call, _ := ana.UnwrapCall(iff.Cond)
+		if call == nil || !call.Call.IsInvoke() || call.Call.Method.Name() != "Valid" {
+			continue
+		}
+		body, exit := b.Succs[0], b.Succs[1]
+		// blocks of the loop: reachable from body without passing the header
+		in := map[*ssa.BasicBlock]bool{}
+		stack := []*ssa.BasicBlock{body}
+		for len(stack) > 0 {
+			x := stack[len(stack)-1]
+			stack = stack[:len(stack)-1]
+			if in[x] || x == b {
+				continue
+			}
+			in[x] = true
+			for _, s := range x.Succs {
+				if s != exit {
+					stack = append(stack, s)
+				}
+			}
+		}
+		// a block inside the loop that reaches the header again is a loop block; one that jumps to exit is a break
+		for x := range in {
+			reachesHeader := false
+			seen := map[*ssa.BasicBlock]bool{}
+			st := []*ssa.BasicBlock{x}
+			for len(st) > 0 {
+				y := st[len(st)-1]
+				st = st[:len(st)-1]
+				if seen[y] {
+					continue
+				}
+				seen[y] = true
+				if y == b {
+					reachesHeader = true
+					break
+				}
+				st = append(st, y.Succs...)
+			}
+			for _, s := range x.Succs {
+				if s == exit {
+					return false, "a break leaves the scan loop"
+				}
+				_ = reachesHeader
+			}
+			if len(x.Instrs) > 0 {
+				if _, isRet := x.Instrs[len(x.Instrs)-1].(*ssa.Return); isRet {
+					return false, "a return leaves the scan loop"
+				}
+			}
+		}
+		return true, ""
+	}
+	return false, "no iterator loop found"
 }
